@@ -5,6 +5,16 @@ ROOT = os.path.dirname(os.path.dirname(os.path.abspath(__file__)))
 
 TECH = "deterministic simulation with fault injection: "
 CHECKS = {
+ "C10": dict(
+   text="Seeded TAP images (0-6 blocks, boundary lengths around the 128-byte buffer, right/wrong checksums, chunked asset) and request sequences (A, LOAD/VERIFY, IX anywhere incl. ROM and wrap, DE incl. 0 and D=0xFF) issued as direct calls of the ROM routine with fast loading on; memory, IX, DE and carry compared with RefLdBytes (byte-level model of the ROM code); requests past the end of the tape must not return and must leave the machine bit-identical to a twin with no tape inserted. Sampling, not proof.",
+   note="RefLdBytes is cross-validated against the real ROM loader running in real time by C11's system runs; the ROM's own stack traffic and (when its frame interrupt ran before returning) system variables are masked.",
+   technique=TECH+"seeded tape images and request histories on the real machine against a reference loader model and a no-tape twin machine",
+   ref="5 (C10)"),
+ "C11": dict(
+   text="Component level: the real Tap state machine is stepped through whole tapes with time partitioned into seeded 1..16 T bus-wait steps (also constant and zero-length steps, chunked asset reads); every pulse must lie in [nominal, nominal+32), pilots/syncs/bit pairs/pauses and the decoded bytes must equal RefTape. System level: twin machines on the same tape - fast load vs the real 48K ROM loader running in real time on the played waveform, each request issued in the pause before its block - must agree on memory, IX, DE and carry and with RefLdBytes. Sampling, not proof.",
+   note="'About one second' = 3.15M..3.85M T; system runs use blocks up to 300 bytes; system variables touched by the ROM's frame interrupt are masked.",
+   technique=TECH+"seeded time partitions on the real tape state machine against a reference waveform; twin-machine differential (fast load vs real-time ROM loader)",
+   ref="5 (C11)"),
  "C19": dict(
    text="Seeded speaker/MIC toggle schedules (observed by single-stepping) under seeded sample rates (8-384 kHz), volumes, device enables and host drain policies (always / every j-th frame / never, multi-frame host calls): exactly floor(rate/50) samples per drained frame, every sample equals a beeper level in force within one sample of its frame time, all samples finite and within the volume bound (also with a randomly programmed AY), queue below two frames' worth when not drained. Sampling, not proof.",
    note="Beeper factors (0.5 speaker, 0.1 MIC, volume/200) are taken from the mixer's documented constants; the per-sample clause is checked with the AY disabled; AY signal content is C18's.",
